@@ -38,6 +38,17 @@ def generate(rng, tier):
         vb, rc = R.viewbox(rng), R.rect(rng)
         body = ["R"] + vb + ["-"] + R.path(rng, verbs=["A", "a", "A", "a", "L", "q", "h"], n=rng.range(1, 5))
         g["random"].append("REN %d %d %d %d " % tuple(rc) + " ".join(body))
+    g["decoded-wide-flags"] = []
+    for i in range(300 if tier == "quick" else 6000):
+        fl = rng.below(4)
+        w = rng.choice([2, 4, 4])
+        hi = rng.below(1 << 12) if w == 2 else rng.choice([rng.below(1 << 28), (1 << 28) - 1, 1 << 22, 1 << 27, (1 << 22) + 1])
+        n = fl | (hi << 2)
+        op = rng.choice(["c0", "d0"])
+        stream = G.MAGIC + "00" + "c0" + "%02x%02x" % (2 * (64 + rng.range(-20, 20)), 2 * (64 + rng.range(-20, 20))) + op + \
+            "%02x%02x" % (2 * (64 + rng.range(1, 30)), 2 * (64 + rng.range(1, 30))) + "%02x" % (2 * rng.below(120)) + G.natural_bytes(n, w) + \
+            "%02x%02x" % (2 * (64 + rng.range(-30, 30)), 2 * (64 + rng.range(-30, 30))) + "e1"
+        g["decoded-wide-flags"].append("DREN 0 0 %d %d %s" % (rng.choice([16, 64, 100]), rng.choice([16, 64, 100]), stream))
     for _ in range(500 if tier == "quick" else 10000):
         vb, rc = R.viewbox(rng), R.rect(rng)
         x, y = R.mf(rng), R.mf(rng)
